@@ -6,6 +6,144 @@ import vlib
 from vlib import cN, clist
 
 IMPORTS = "From DtlsV Require Import Lib.Bytes Rec.WindowRun Rec.Send Rec.SendRun."
+IMPORTS_X = "From DtlsV Require Import Lib.Bytes Rec.WindowRun Rec.Send Rec.SendRun Rec.SendExport Rec.SendExportRun."
+SITE_X = "conn.go ConnectionState / state.go generateState, generateInternalState (sequence number handed out by an export)"
+
+
+def monitor_union(pre, recs):
+    """C09's own predicate over the records of the exporting connection up to the export moment
+    followed by the records of the imported connection."""
+    seen, last = {}, {}
+    for i, r in enumerate(pre + recs):
+        who = "exporting" if i < len(pre) else "imported"
+        if r["e"] < 0:
+            continue
+        k = (r["e"], r["s"])
+        if k in seen:
+            return "record number (epoch %d, seq %d) emitted twice: by the %s connection (record #%d) and by the %s connection (record #%d)" % (
+                r["e"], r["s"], seen[k][1], seen[k][0], who, i)
+        seen[k] = (i, who)
+        if r["e"] in last and r["s"] <= last[r["e"]]:
+            return "sequence numbers of epoch %d not increasing across export/import (%d emitted by the %s connection after %d)" % (
+                r["e"], r["s"], who, last[r["e"]])
+        last[r["e"]] = r["s"]
+        if r["s"] > 2 ** 48 - 1:
+            return "sequence number above 2^48-1"
+    return None
+
+
+def monitor_export(c):
+    """first import of the case whose union violates the predicate: (import, text)"""
+    orig = c.get("orig") or []
+    for im in c.get("imports") or []:
+        if im.get("err"):
+            continue
+        t = monitor_union(orig[:im["prefix"]], im.get("recs") or [])
+        if t:
+            return im, t
+    return None
+
+
+def export_term(c):
+    pr = lambda l: clist(["(%d,%d)" % (r["e"], r["s"]) for r in l if r["e"] >= 0])
+    imps = sorted([im for im in (c.get("imports") or []) if not im.get("err")], key=lambda im: im["prefix"])
+    return "(%s, %s)" % (pr(c.get("orig") or []),
+                         clist(["(%d%%nat, %d, %s)" % (im["prefix"], im["epoch"], pr(im.get("recs") or [])) for im in imps]))
+
+
+def prove_export(chk):
+    """Properties/C09export.v (export/import as operations of the history)"""
+    import re
+    ok, out = vlib.coq_make(["theories/Properties/C09export.vo", "theories/Rec/SendExportRun.vo"])
+    if not ok:
+        m = re.search(r'File "([^"]+)", line (\d+)', out)
+        chk.broken("proof obligation Properties/C09export.v no longer checks (%s)" % (("%s:%s" % m.groups()) if m else "?"), out)
+        return False
+    ok2, theorems, atext = vlib.coq_assumptions("C09export")
+    closed = atext.count("Closed under the global context")
+    axioms = sorted(set(re.findall(r"^([A-Za-z0-9_.']+)\s*:", atext, re.M)))
+    chk.cov["obligations"] = chk.cov.get("obligations", 0) + len(theorems)
+    chk.cov["discharged"] = chk.cov.get("discharged", 0) + (len(theorems) if ok2 else 0)
+    chk.cov["theorems"] = list(chk.cov.get("theorems", [])) + theorems
+    chk.leg_info("export-proof", theorems=theorems, closed=closed, axioms=axioms,
+                 checker_cmd="cd /verif/coq && make -j16 theories/Properties/C09export.vo")
+    if not ok2 or axioms or closed != len(theorems):
+        chk.broken("Print Assumptions of Properties/C09export.v: %d/%d closed, axioms %s" % (closed, len(theorems), axioms), atext)
+        return False
+    return True
+
+
+def run_export(chk):
+    """export leg: k >= 1 exports at different moments of one connection, every State imported"""
+    out = vlib.out_path("c09x")
+    rc, o = vlib.go_test(".", "^TestVerifC09Export$", {"VERIF_SEED": chk.seed, "VERIF_TIER": chk.tier, "VERIF_OUT": out},
+                         tags=["c09"], timeout=2400)
+    cases = vlib.read_jsonl(out)
+    vlib.cleanup(out)
+    found = False
+    if rc != 0:
+        kind = vlib.classify_go_failure(o)
+        if kind == "panic":
+            found = True
+            chk.finding(SITE_X, {"monitor": "panic", "leg": "export"}, "panic in export/import/send path", {"output": o[-4000:]})
+        else:
+            chk.broken("correspondence harness TestVerifC09Export no longer runs against /repo (%s)" % kind, o)
+    how = ("handshake of `variant` (MTU `mtu`, datagram #drop dropped) in the bubble; the `side` connection then performs "
+           "sched[k] application writes followed by ConnectionState() #k for k = 0,1,...; every State is resumed as returned "
+           "(`direct`) and after MarshalBinary/UnmarshalBinary (`gob`) with resumeWithConfig/ResumeWithOptions on a side "
+           "transport and writes `after` datagrams, then Close. `orig` = records of the exporting connection in emission "
+           "order, orig[:prefix] = those emitted before export #export; `recs` = records of the imported connection")
+    reported = set()
+    for c in cases:
+        m = monitor_export(c)
+        if not m:
+            continue
+        found = True
+        im, text = m
+        nth = "first" if im["export"] == 0 else "later"
+        kind = "record-number-reused-after-import" if "emitted twice" in text else (
+            "sequence-not-increasing-after-import" if "not increasing" in text else "sequence-number-above-limit")
+        sig = {"monitor": kind, "leg": "export", "export": nth}
+        if str(sig) in reported:
+            continue
+        reported.add(str(sig))
+        chk.finding(SITE_X, sig,
+                    "%s [variant %s, %s exported, writes before each export %s, export #%d (%s, %s) carried sequence number %d "
+                    "after %d records of the exporting connection]" % (
+                        text, c["variant"], c["side"], c["sched"], im["export"], im["via"], im["api"], im["seq"], im["prefix"]),
+                    {"how": how, "failing_import": im, "emitted_before_export": (c.get("orig") or [])[:im["prefix"]],
+                     "case": {k: c[k] for k in ("variant", "side", "mtu", "drop", "writers", "sched", "after")},
+                     "test": "VERIF_SEED=%s go test -tags verif -run ^TestVerifC09Export$" % chk.seed})
+    errs = [(c, im) for c in cases for im in (c.get("imports") or []) if im.get("err")]
+    for c, im in errs[:1]:
+        chk.finding(SITE_X, {"monitor": "exported-state-not-importable", "leg": "export"},
+                    "a State returned by ConnectionState() of an established DTLS 1.2 connection could not be resumed/written: %s" % im["err"],
+                    {"how": how, "failing_import": im, "case": {k: c[k] for k in ("variant", "side", "mtu", "drop", "writers", "sched", "after")}})
+        found = True
+    done = [c for c in cases if c["done"]]
+    if done:
+        terms = [export_term(c) for c in done]
+        bad, err = vlib.coq_mismatches("c09x", IMPORTS_X, "c09x_case", "c09x_ok", terms, shard=40)
+        if bad is None:
+            chk.broken("correspondence evaluation (export leg) failed in coqc", err)
+        else:
+            for j in bad[:1]:
+                c = done[j]
+                m = monitor_export(c)
+                if m and found:
+                    continue
+                chk.finding(SITE_X, {"monitor": "model-mismatch", "leg": "export"},
+                            "record numbers of exporting/imported connections differ from Rec/SendExport.v (%s of %s)" % (c["side"], c["variant"]),
+                            {"how": how, "case": c, "correspondence": "Rec.SendExportRun.c09x_ok"}, no_input=(m is None))
+    nimp = sum(len(c.get("imports") or []) for c in cases)
+    multi = [c for c in done if len(c["sched"]) > 1]
+    chk.count("export", len(cases), [(c["variant"], c["side"], c["mtu"], c["drop"], c["writers"], tuple(c["sched"]), c["after"]) for c in done],
+              samples=[{k: c[k] for k in ("variant", "side", "sched", "after")} | {"imports": (c.get("imports") or [])[:2]} for c in multi[:2]])
+    chk.cov["traces_validated_against_impl"] = chk.cov.get("traces_validated_against_impl", 0) + len(cases)
+    chk.leg_info("export", sessions=len(cases), not_completed=len(cases) - len(done), imports=nimp,
+                 sessions_with_several_exports=len(multi),
+                 records_on_wire=sum(len(c.get("orig") or []) for c in cases) + sum(len(im.get("recs") or []) for c in cases for im in (c.get("imports") or [])))
+    return found
 
 
 def monitor(c):
@@ -130,6 +268,10 @@ def run(chk):
     if not proved and not found:
         where, pout = getattr(chk, "proof_error", ("?", ""))
         chk.broken("proof obligation Properties/C09.v no longer checks (%s)" % where, pout)
+    # export/import as operations of the history: model Rec/SendExport.v, theorems Properties/C09export.v
+    if proved:
+        prove_export(chk)
+    run_export(chk)
     # DTLS 1.3 record layer: model Rec/Rec13.v, theorems Properties/C09rec13.v, correspondence legs
     import rec13lib
     rec13lib.run_c09(chk)
@@ -137,7 +279,10 @@ def run(chk):
         level="proof",
         rule="whole DTLS 1.2 sessions in a synctest bubble: each of the first datagrams dropped once (retransmission of every "
              "flight), small MTUs (fragmented flights), duplicated datagrams, 1-3 concurrent writers per side, Close alerts, "
-             "export/import of the server session, counter preset at 2^48-1-{0,1,3}; DTLS 1.3 sessions (loss, concurrent writers, "
+             "export/import of the server session, counter preset at 2^48-1-{0,1,3}; export leg: 1-4 ConnectionState() calls at "
+             "different moments of one connection (client or server; right after the handshake, after 0-6 more writes each), "
+             "every State resumed as returned and through MarshalBinary/UnmarshalBinary, 1-4 writes + Close on the imported "
+             "connection, C09's predicate over (records before that export) ++ (records of the import); DTLS 1.3 sessions (loss, concurrent writers, "
              "key updates on both sides) with every record opened to read its encrypted number. Non-trivial = session with a fault, an "
              "import or a preset; distinct by (variant, mtu, drop, dup, import, preset).",
         assumptions=["the write lock serialises allocation+marshalling under the Go memory model (schedules are sampled by the runtime; "
